@@ -123,42 +123,52 @@ def enc_bundle(tt, elems):
 # --------------------------------------------------------------------------------------------
 # (i) pattern / address pairs
 def gen_pattern(rng):
-    """a well-formed OSC 1.0 pattern text and one address it matches"""
+    """a well-formed OSC 1.0 pattern text, one address it matches, and the tokens it denotes
+    (a Coq `list otok` term) with a flag telling whether a meaningless '-' was written before a ']'"""
     p, a = '/', '/'
+    toks, dash = ['OLit 47'], False
     for _ in range(rng.randint(0, 5)):
         k = rng.random()
         if k < 0.45:
             c = rng.choice(LITS)
             p += c
             a += c
+            toks.append('OLit %d' % ord(c))
         elif k < 0.58:
             p += '?'
             a += rng.choice('abc01')
+            toks.append('OAny')
         elif k < 0.71:
             p += '*'
             a += ''.join(rng.choice('abc01') for _ in range(rng.randint(0, 2)))
+            toks.append('OStar')
         elif k < 0.86:
             neg = rng.random() < 0.4
-            items, chars = '', []
+            items, chars, its = '', [], []
             for _ in range(rng.randint(1, 2)):
                 if rng.random() < 0.4:
                     lo, hi = sorted(rng.sample('abc', 2)) if rng.random() < 0.6 else ('0', '1')
                     items += lo + '-' + hi
                     chars += [chr(x) for x in range(ord(lo), ord(hi) + 1)]
+                    its.append('(%d, %d)' % (ord(lo), ord(hi)))
                 else:
                     c = rng.choice('abc01')
                     items += c
                     chars.append(c)
+                    its.append('(%d, %d)' % (ord(c), ord(c)))
             if rng.random() < 0.15:
                 items += '-'                      # "a-]" : trailing '-' discarded by the rewrite
+                dash = True
             p += '[' + ('!' if neg else '') + items + ']'
             pool = [c for c in 'abc01' if (c not in chars) == neg]
             a += rng.choice(pool) if pool else 'z'
+            toks.append('OClass %s [%s]' % (cbool(neg), '; '.join(its)))
         else:
             alts = [''.join(rng.choice('abc01') for _ in range(rng.randint(0, 2))) for _ in range(rng.randint(1, 3))]
             p += '{' + ','.join(alts) + '}'
             a += rng.choice(alts)
-    return p, a
+            toks.append('OAlt [%s]' % '; '.join(cs(w) for w in alts))
+    return p, a, '(Some ([%s], %s))' % ('; '.join(toks), cbool(dash))
 
 
 def mutate_addr(rng, a):
@@ -186,8 +196,10 @@ def gen_pairs(rng, n):
              ['/[a-c-e]', '/-'], ['/[c-a]', '/b'], ['/{a', '/a'], ['/a}', '/a'], ['/a]', '/a]'], ['/*/*', '/a/b'], ['/a**b', '/ab']]
     while len(pairs) < n:
         if rng.random() < 0.72:
-            p, a = gen_pattern(rng)
+            p, a, toks = gen_pattern(rng)
             a = mutate_addr(rng, a)
+            pairs.append([p, a, toks])
+            continue
         else:
             p = '/' + ''.join(rng.choice(LITS * 2 + METAS) for _ in range(rng.randint(0, 6)))
             a = '/' + ''.join(rng.choice(LITS) for _ in range(rng.randint(0, 5)))
@@ -202,13 +214,23 @@ def corr_pairs(ctx, c):
     corpus = os.path.join(fw.VERIF, 'corpus', 'C18_pairs.json')
     if os.path.exists(corpus):
         pairs = json.load(open(corpus)) + pairs
+    toks = [q[2] if len(q) > 2 else 'None' for q in pairs]
+    pairs = [q[:2] for q in pairs]
     res = ctx.impl('c18_match', {'pairs': pairs})
     out = res['out']
     mr = {'T': 'MTrue', 'F': 'MFalse', 'E': 'MReError'}
-    items = ['(%s, %s, %s)' % (cs(p), cs(a), mr.get(o, 'MOutOfFuel')) for (p, a), o in zip(pairs, out)]
-    hdr = ('From Coq Require Import ZArith List. Import ListNotations.\n'
-           'Require Import SC3.lib.PyNum SC3.model.OscMatch.\n')
-    body = 'Eval vm_compute in bad_idx (fun c => mres_eqb (osc_rematch (fst (fst c)) (snd (fst c))) (snd c)) cases.'
+    items = ['(%s, %s, %s, %s)' % (cs(p), cs(a), mr.get(o, 'MOutOfFuel'), tk) for (p, a), o, tk in zip(pairs, out, toks)]
+    c.count('pairs:with-osc10-tokens', sum(1 for tk in toks if tk != 'None'))
+    # besides model = implementation: for the generated well-formed texts the tokens are well-formed, render to
+    # the text (unless a meaningless '-' was added) and the implementation's answer is membership in the
+    # OSC 1.0 language of the tokens (decided through compile_correct / deriv_match_correct)
+    hdr = ('From Coq Require Import ZArith List Bool. Import ListNotations.\n'
+           'Require Import SC3.lib.PyNum SC3.model.OscMatch SC3.model.OscBundleParse.\nOpen Scope Z_scope.\n'
+           'Definition spec_ok (p a : list Z) (impl : mres) (o : option (list otok * bool)) : bool :=\n'
+           '  match o with None => true | Some (ts, dash) => forallb tok_ok ts && (dash || list_eqb Z.eqb (render ts) p)\n'
+           '    && mres_eqb (if rmatch (compile ts) a then MTrue else MFalse) impl end.\n')
+    body = ('Eval vm_compute in bad_idx (fun c => match c with (p, a, impl, o) => '
+            'mres_eqb (osc_rematch p a) impl && spec_ok p a impl o end) cases.')
     bad, errs = fw.check_shards(ctx, 'pairs', hdr, items, body, shard=500)
     for (p, a), o in zip(pairs, out):
         c.count('pairs:' + o)
@@ -691,7 +713,7 @@ def search(ctx, failures):
     from oracles import oscpattern
     found = []
     # matcher against the direct recursive OSC 1.0 matcher
-    pairs = gen_pairs(ctx.rng, ctx.n(3000, 30000))
+    pairs = [q[:2] for q in gen_pairs(ctx.rng, ctx.n(3000, 30000))]
     for f in failures:
         if f.replay.get('kind') == 'pair':
             pairs.insert(0, [f.replay['pattern'], f.replay['address']])
